@@ -119,7 +119,7 @@ PROPS = {
         level_note=_CHAIN_NOTE,
     ),
     "C03": dict(
-        tie=["Ucan.Props.Tie.ChainOrder", "Ucan.Props.Tie.ChainArgs", "Ucan.Props.Tie.PolicyMatch"],
+        tie=["Ucan.Props.Tie.ChainEntry", "Ucan.Props.Tie.ChainOrder", "Ucan.Props.Tie.ChainArgs", "Ucan.Props.Tie.PolicyMatch"],
         props_module="Ucan.Props.C03",
         streams=["chain"],
         filter=_chain_filter(clauses=["policy", "hook"]),
@@ -138,7 +138,7 @@ PROPS = {
         level_note=_CHAIN_NOTE + " Wall-clock reads and time.Time's monotonic-clock handling are not modelled; bounds in chain scenarios sit two hours from now.",
     ),
     "C05": dict(
-        tie=["Ucan.Props.Tie.ChainProofs", "Ucan.Props.Tie.ChainTime", "Ucan.Props.Tie.ChainAllowed"],
+        tie=["Ucan.Props.Tie.ChainEntry", "Ucan.Props.Tie.ChainProofs", "Ucan.Props.Tie.ChainTime", "Ucan.Props.Tie.ChainAllowed"],
         props_module="Ucan.Props.C05",
         streams=["chain"],
         filter=_chain_filter(completeness=True),
